@@ -423,7 +423,13 @@ func runC16(r *Run, stratum string) *Violation {
 		r.Logf("step %d: %s", r.W.Step(), a.label)
 		a.do()
 	}
-	// faults stop: deliver everything; within the bound the follower equals the leader (or took over)
+	// faults stop: deliver everything; within the bound the follower equals the leader (or took over).
+	// The source is alive: a master talks at least every few seconds (its keep-alive), so the stream grows once more.
+	// (A leader that has switched ids tells a follower it is serving with the next chunk it reads for it - with an
+	// idle source that is the moment of the next keep-alive, not never.)
+	if leaderEvent && scen != "ahead" && L.aw != nil {
+		c.grow(L, 1+int64(r.Sched().Choose("keepalivegrow", 32)))
+	}
 	_, wantRight := L.ch.GetOffsetRange(idL)
 	caughtUp := func() bool {
 		if F.ch.RunId() != idL {
